@@ -81,20 +81,21 @@ type Fund struct {
 
 // GenesisSpec is the serialisable configuration a history starts from.
 type GenesisSpec struct {
-	TimeUnix int64           `json:"time_unix"`
-	Eco      json.RawMessage `json:"eco,omitempty"`
-	Data     json.RawMessage `json:"data,omitempty"`
-	Funds    []Fund          `json:"funds,omitempty"`
-	Locked   []Fund          `json:"locked,omitempty"` // permanently locked (vesting) part of an account's funds
-	Hasher   HasherSpec      `json:"hasher,omitempty"`
-	ChainID  string          `json:"chain_id,omitempty"` // "" = the harness default "verif-1"
-	Notes    []string        `json:"notes,omitempty"`
+	TimeUnix      int64           `json:"time_unix"`
+	Eco           json.RawMessage `json:"eco,omitempty"`
+	Data          json.RawMessage `json:"data,omitempty"`
+	Funds         []Fund          `json:"funds,omitempty"`
+	Locked        []Fund          `json:"locked,omitempty"` // permanently locked (vesting) part of an account's funds
+	Hasher        HasherSpec      `json:"hasher,omitempty"`
+	ChainID       string          `json:"chain_id,omitempty"` // "" = the harness default "verif-1"
+	InitialHeight int64           `json:"initial_height,omitempty"`
+	Notes         []string        `json:"notes,omitempty"`
 }
 
 func (g GenesisSpec) Time() time.Time { return time.Unix(g.TimeUnix, 0).UTC() }
 
 func (g GenesisSpec) ToChainGenesis() (chain.Genesis, error) {
-	cg := chain.Genesis{Time: g.Time(), Eco: g.Eco, Data: g.Data}
+	cg := chain.Genesis{Time: g.Time(), Eco: g.Eco, Data: g.Data, InitialHeight: g.InitialHeight}
 	for _, f := range g.Funds {
 		a, err := sdk.AccAddressFromBech32(f.Addr)
 		if err != nil {
@@ -126,12 +127,24 @@ type TStep struct {
 	Msg     json.RawMessage `json:"msg,omitempty"` // human-readable rendering (may be lossy, e.g. huge durations)
 	Bin     []byte          `json:"bin,omitempty"` // protobuf Any bytes: what Replay decodes
 	TimeNs  int64           `json:"time_ns,omitempty"`
+	Time    string          `json:"time,omitempty"` // RFC 3339 with nanoseconds; wins over time_ns (which cannot hold years beyond 2262)
 	Addr    string          `json:"addr,omitempty"`
 	Coins   string          `json:"coins,omitempty"`
+	Gas     uint64          `json:"gas_limit,omitempty"` // explicit gas limit of this delivery (0 = default)
 	OK      *bool           `json:"ok,omitempty"`
 	Err     string          `json:"err,omitempty"`
 	MsgType string          `json:"type,omitempty"`
 	Sub     []TStep         `json:"sub,omitempty"` // kind "spec": messages executed on a discarded branch
+}
+
+// When is the block time of a "block" / "restart" step.
+func (s TStep) When() time.Time {
+	if s.Time != "" {
+		if t, err := time.Parse(time.RFC3339Nano, s.Time); err == nil {
+			return t.UTC()
+		}
+	}
+	return time.Unix(0, s.TimeNs).UTC()
 }
 
 // Trace is a replayable history.
@@ -175,7 +188,7 @@ func (tr *Trace) AddBlock(t time.Time, restart bool) {
 	if restart {
 		k = "restart"
 	}
-	tr.Steps = append(tr.Steps, TStep{Kind: k, TimeNs: t.UnixNano()})
+	tr.Steps = append(tr.Steps, TStep{Kind: k, Time: t.UTC().Format(time.RFC3339Nano)})
 }
 
 func (tr *Trace) AddFaucet(a sdk.AccAddress, c sdk.Coins) {
@@ -192,7 +205,7 @@ func (tr *Trace) Abstract(n int) interface{} {
 		}
 		switch s.Kind {
 		case "block", "restart":
-			out = append(out, fmt.Sprintf("%s@%s", s.Kind, time.Unix(0, s.TimeNs).UTC().Format(time.RFC3339Nano)))
+			out = append(out, fmt.Sprintf("%s@%s", s.Kind, s.When().Format(time.RFC3339Nano)))
 		case "faucet":
 			out = append(out, "faucet "+s.Coins)
 		default:
@@ -242,7 +255,7 @@ func ReplayHook(tr *Trace, prof *Profile, fail FailFunc, hook func(w *World), mo
 	for _, s := range tr.Steps {
 		switch s.Kind {
 		case "block", "restart":
-			w.NextBlock(time.Unix(0, s.TimeNs).UTC(), s.Kind == "restart")
+			w.NextBlock(s.When(), s.Kind == "restart")
 		case "spec":
 			w.replaySpec(s)
 		case "faucet":
@@ -256,7 +269,9 @@ func ReplayHook(tr *Trace, prof *Profile, fail FailFunc, hook func(w *World), mo
 			}
 			w.Faucet(a, c)
 		default:
+			w.forceGas = s.Gas
 			w.Deliver(s.Kind, w.decodeStep(s))
+			w.forceGas = 0
 		}
 	}
 	return w
